@@ -389,6 +389,30 @@ pub fn chain_scenario(r: &mut Rng) -> Scenario {
     Scenario { mode: m, zone_specs: vec![spec], zones, cache_rrs, script, question, expect: None, family: "chain" }
 }
 
+/// the shape of open finding F11 (C01-K1), exhibited on every run: a forwarded question whose upstream
+/// answer is an alias into a LOCAL authoritative zone together with a record for that local name
+fn f11_scenario(r: &mut Rng) -> Scenario {
+    let s = soa(r);
+    let mut spec = format!("{}!{}", c::name(&nm("lan.")), soa_text(&s));
+    let mut zone = Zone::new(nm("lan."), Some(s));
+    let host = nm("host.lan.");
+    if r.chance(1, 2) {
+        // with or without a local record for the alias target: the local zone owns the name either way
+        let x = rr(&host, a4(1), 300);
+        zone.insert(&host, a4(1), 300);
+        spec.push_str(&format!("!i:{}", c::rr(&x)));
+    }
+    let mut zones = Zones::new();
+    zones.insert_merge(zone);
+    let fwd = SocketAddr::new(IpAddr::V4(Ipv4Addr::new(192, 0, 2, 53)), 53);
+    let question = Question { name: nm("q.ext."), qtype: QueryType::from(1u16), qclass: QueryClass::Record(RecordClass::IN) };
+    let mut reply = reply_to(&question);
+    reply.answers.push(rr(&question.name, RecordTypeWithData::CNAME { cname: host.clone() }, 60));
+    reply.answers.push(rr(&host, a4(66), 60));
+    let script = vec![Entry { addr: fwd.ip(), tcp: false, qname: question.name.clone(), qtype: 1, delay_ms: 3, reply: Reply::Msg { m: reply, same_id: true } }];
+    Scenario { mode: Mode::Fwd(fwd), zone_specs: vec![spec], zones, cache_rrs: Vec::new(), script, question, expect: None, family: "chain" }
+}
+
 // ---- universe: a delegation tree served by scripted authoritative servers ---------------------
 
 struct UZone {
@@ -751,9 +775,21 @@ fn universe_question(r: &mut Rng, u: &Universe) -> Question {
         }
         _ => r.pick(&owners).clone(),
     };
+    // an alias whose target is an alias too: ask for the CNAME type itself half of the time (the
+    // answer is the one alias record, not the chain — F16)
+    let cname_q = QueryType::Record(RecordType::CNAME);
+    let double_alias = match u.zone_for(&name).zone.resolve(&name, cname_q) {
+        Some(ZoneResult::Answer { rrs }) => rrs.iter().any(|rr| match &rr.rtype_with_data {
+            RecordTypeWithData::CNAME { cname } => {
+                matches!(u.zone_for(cname).zone.resolve(cname, cname_q), Some(ZoneResult::Answer { rrs }) if !rrs.is_empty())
+            }
+            _ => false,
+        }),
+        _ => false,
+    };
     Question {
         name,
-        qtype: QueryType::from(*r.pick(&[1u16, 1, 1, 28, 16, 2, 5])),
+        qtype: if double_alias && r.chance(1, 2) { cname_q } else { QueryType::from(*r.pick(&[1u16, 1, 1, 28, 16, 2, 5, 5])) },
         qclass: QueryClass::Record(RecordClass::IN),
     }
 }
@@ -954,7 +990,9 @@ pub fn run(r: &mut Rng, n: usize, which: &str, out: &mut Out) {
     for i in 0..n {
         let sc = match which {
             "local" => {
-                if i % 3 == 2 {
+                if i % 200 == 7 {
+                    f11_scenario(r)
+                } else if i % 3 == 2 {
                     chain_scenario(r)
                 } else {
                     local_scenario(r)
